@@ -31,6 +31,12 @@ FailedC01(r) ==
     \cup Clause("depth_ok", All(r, LAMBDA k, o : o.ld[1] = C!DepthAt(heap, info, k, 0)))
     \cup Clause("mask_zero", All(r, LAMBDA k, o : o.mask = info[k].mask))
     \cup Clause("repr_agrees", All(r, LAMBDA k, o : Has(o.repr, "ok") /\ o.repr.ok = C!TopHash(heap, info, k)))
+    \* the pre-image itself, as the library exposes it: two descriptor bytes, data padded with the completion tag, the children's
+    \* depths, the children's hashes - and its pieces through their own accessors
+    \cup Clause("representation_bytes_ok", All(r, LAMBDA k, o : Has(o, "reprb") =>
+                    /\ o.reprb = C!Repr0(heap, info, k)
+                    /\ o.desc = <<C!D1(heap[k], 0), C!D2(heap[k])>>
+                    /\ o.databytes = C!Data(heap[k])))
     \cup Clause("eq_iff_hash", \A p \in 1..Len(r.pairs) :
                     LET q == r.pairs[p] IN (q[3] = 1) <=> (C!TopHash(heap, info, q[1]) = C!TopHash(heap, info, q[2])))
     \cup Clause("dictkey_iff_hash", \A p \in 1..Len(r.pairs) :
